@@ -34,6 +34,7 @@ var cons = []gen.Con{
 	{Name: "E2", Arity: 0}, {Name: "EIP", Arity: 0}, {Name: "HP", Arity: 0}, {Name: "RT", Arity: 0}, {Name: "CAR", Arity: 0}, {Name: "UND", Arity: 0},
 	{Name: "IE", Arity: 1}, {Name: "HBc", Arity: 1}, {Name: "HB1", Arity: 1}, {Name: "HBip", Arity: 1}, {Name: "HBe", Arity: 1},
 	{Name: "HBrt", Arity: 1}, {Name: "HB2", Arity: 1}, {Name: "HB2r", Arity: 1}, {Name: "HBbad", Arity: 1},
+	{Name: "HBhp", Arity: 1}, {Name: "HBhe", Arity: 1},
 	{Name: "PG", Arity: 2}, {Name: "IE2", Arity: 2}, {Name: "HBh", Arity: 2}, {Name: "HBx", Arity: 2}, {Name: "LIST2", Arity: 2},
 }
 
@@ -78,6 +79,12 @@ func render(t *gen.Tree) string {
 		return "(handler-bind ([c2 " + hTwo + "] [condition " + hList + "]) " + k(0) + ")"
 	case "HB2r":
 		return "(handler-bind ([condition " + hList + "] [c2 " + hTwo + "]) " + k(0) + ")"
+	case "HBhp":
+		// the handler is a HOST builtin that panics when it is called
+		return "(handler-bind ([condition host-panic-handler]) " + k(0) + ")"
+	case "HBhe":
+		// the handler is a HOST builtin that returns an ordinary error
+		return "(handler-bind ([condition host-error-handler]) " + k(0) + ")"
 	case "HBbad":
 		return "(handler-bind ([condition 42]) " + k(0) + ")"
 	case "PG":
@@ -105,6 +112,12 @@ func runRef(src string) obs {
 	in.DefBuiltin("host-panic", nil, func(in *ri.Interp, a []*ri.Val, at *ri.Val) (*ri.Val, *ri.Err) {
 		return nil, in.HostPanicErr(at)
 	})
+	in.DefBuiltin("host-panic-handler", []string{"c", "&rest", "d"}, func(in *ri.Interp, a []*ri.Val, at *ri.Val) (*ri.Val, *ri.Err) {
+		return nil, in.HostPanicErr(at)
+	})
+	in.DefBuiltin("host-error-handler", []string{"c", "&rest", "d"}, func(in *ri.Interp, a []*ri.Val, at *ri.Val) (*ri.Val, *ri.Err) {
+		return nil, in.Errf(at, "host-error", "host handler failed")
+	})
 	v, e, perr := in.Load(src)
 	switch {
 	case perr != nil:
@@ -123,8 +136,25 @@ func runReal(src string) obs {
 	hp := el.Fn("host-panic", nil, func(env *lisp.LEnv, args *lisp.LVal) *lisp.LVal {
 		panic("injected host panic")
 	})
-	env := el.MustEnv(el.Opts{Builtins: []lisp.LBuiltinDef{hp}})
+	hph := el.Fn("host-panic-handler", []string{"c", "&rest", "d"}, func(env *lisp.LEnv, args *lisp.LVal) *lisp.LVal {
+		panic("injected host panic in a handler")
+	})
+	heh := el.Fn("host-error-handler", []string{"c", "&rest", "d"}, func(env *lisp.LEnv, args *lisp.LVal) *lisp.LVal {
+		return env.ErrorConditionf("host-error", "host handler failed")
+	})
+	env := el.MustEnv(el.Opts{Builtins: []lisp.LBuiltinDef{hp, hph, heh}})
 	o := env.Load(src)
+	// whatever happened, nothing may be left behind: "rethrow ... is itself an error anywhere else"
+	rt := env.Runtime
+	if rt.CurrentCondition() != nil {
+		return obs{Class: "dirty", Text: "a condition is still pending for rethrow after the evaluation returned: " + rt.CurrentCondition().Str}
+	}
+	if len(rt.Stack.Frames) != 0 {
+		return obs{Class: "dirty", Text: fmt.Sprintf("%d frames left on the call stack", len(rt.Stack.Frames))}
+	}
+	if after := env.Load("(rethrow)"); !after.IsErr || after.Cond != "error" {
+		return obs{Class: "dirty", Text: "a later (rethrow) outside any handler gives " + after.Full()}
+	}
 	if o.IsErr {
 		return obs{Class: "err", Text: o.Cond, Out: el.NormFuns(o.Out)}
 	}
